@@ -104,7 +104,14 @@ fn push(data: &[u8]) -> Vec<u8> {
 /// returns (script code, number of OP_CHECKSIG *operations*)
 fn script_code(rng: &mut Rng, clean_bias: bool) -> (Vec<u8>, usize) {
     let hm = if clean_bias { 0 } else { *rng.pick(&[0u64, 0, 1, 2, 3, 4, 5, 6]) };
-    match rng.below(14) {
+    match rng.below(16) {
+        14 | 15 => { // total script-code LENGTH exactly at and around the var-int class boundaries (252/253/254, 255/256, 65535/65536)
+            let target = *rng.pick(&[252usize, 253, 253, 254, 255, 256, 300, 1000]);
+            let tail = p2pkh(&h20(rng, 0)); let mut s: Vec<u8> = Vec::new();
+            if rng.chance(1, 3) { s.push(CS); }
+            while s.len() + tail.len() + 2 <= target { s.push(0x51); s.push(0x75); }
+            while s.len() + tail.len() < target { s.push(0x61); }
+            s.extend(tail); (s, 1) }
         0 | 1 => (p2pkh(&h20(rng, hm)), 1),
         2 => { let mut s = vec![CS]; s.extend(p2pkh(&h20(rng, hm))); (s, 1) }                                     // separator at offset 0
         3 => { let mut s = vec![0x51, 0x75, CS]; s.extend(if rng.chance(1, 2) { vec![0x76, CK] } else { p2pkh(&h20(rng, hm)) }); (s, 1) } // one separator, non-zero offset
